@@ -287,7 +287,7 @@ func diff(a, b string, options []jd.Option) (string, bool, error) {
 		if err != nil {
 			return "", false, err
 		}
-		if str != "{}" {
+		if len(diff) > 0 {
 			haveDiff = true
 		}
 	default:
